@@ -1,6 +1,6 @@
 SPECIFICATION Spec
 CONSTANTS
-  SdsWriters = {"DFSD", "SD", "NC"}
+  SdsWriters = {"DFSD", "DFSDS", "SD", "NC"}
   RasWriters = {}
   Shapes <- ShapesA
   Types = {"i8", "u16", "f32", "f64", "uc8"}
